@@ -30,6 +30,30 @@ class TooBig(Exception):
 
 
 # ------------------------------------------------------------------ implementation access
+class _Caches:
+    """zero or more lru_cache wrappers seen as one (hit/miss counts added up)"""
+
+    def __init__(self, fs):
+        self.fs = list(fs)
+
+    def cache_info(self):
+        import collections
+
+        infos = [f.cache_info() for f in self.fs]
+        CI = collections.namedtuple("CacheInfo", "hits misses maxsize currsize")
+        return CI(sum(i.hits for i in infos), sum(i.misses for i in infos), infos[0].maxsize if infos else 0, sum(i.currsize for i in infos))
+
+    def cache_clear(self):
+        for f in self.fs:
+            f.cache_clear()
+
+    def cache_parameters(self):
+        return {"maxsize": self.fs[0].cache_parameters()["maxsize"] if self.fs else None}
+
+    def __call__(self, s):
+        return self.fs[0](s) if self.fs else None
+
+
 class Impl:
     """the two decorated parse functions, the lru-cached functions behind them and the raw Lark parsers"""
 
@@ -48,7 +72,12 @@ class Impl:
                 continue
             cells = [c.cell_contents for c in (f.__closure__ or ()) if hasattr(c.cell_contents, "cache_info")]
             if len(cells) != 1:
-                raise RuntimeError(f"cannot reach the lru_cache of the {p} parser through __closure__")
+                # not the decorator stack the translator knows (it fails closed on its own): the histories must still run, so take
+                # whatever lru_cache wrappers the parser module holds -- or none -- and treat the entry point as a black box
+                mod = {"cond": cp, "ahb": ap}[p]
+                cells = [v for v in vars(mod).values() if callable(v) and hasattr(v, "cache_info") and hasattr(v, "cache_clear")]
+                self.cached[p], self.order_ok = _Caches(cells), False
+                continue
             self.cached[p] = cells[0]
 
     def clear(self):
